@@ -202,6 +202,12 @@ func main() {
 
 	// Replay files.
 	os.MkdirAll(filepath.Join(verifDir, "replays"), 0755)
+	// replays of an earlier run with this id and seed would read as this run's
+	if old, _ := filepath.Glob(filepath.Join(verifDir, "replays", fmt.Sprintf("%s-%d-*.json", id, seed))); old != nil {
+		for _, f := range old {
+			os.Remove(f)
+		}
+	}
 	bySig := map[string]int{}
 	var violLines []string
 	for _, v := range unknown {
